@@ -666,6 +666,17 @@ func main() {
 		ok, _, _, d := checkL1(universe(c.N), c.Path)
 		return ok, d
 	})
+	r.Replayer("batch", func(raw json.RawMessage) (bool, string) {
+		var c batchCase
+		if err := json.Unmarshal(raw, &c); err != nil {
+			common.Machinery("bad case: %v", err)
+		}
+		ok, sh, d := checkBatch(c)
+		if ok {
+			return true, fmt.Sprintf("a batch of %d is stored and removed as a whole", c.N)
+		}
+		return false, sh + ": " + d
+	})
 	r.Replayer("pair", func(raw json.RawMessage) (bool, string) {
 		var c pairCase
 		if err := json.Unmarshal(raw, &c); err != nil {
@@ -687,6 +698,7 @@ func main() {
 	r.Assume("identity of triples is judged structurally through exported accessors (type, id, kind, instant, literal type+value), never through UUID() or String()")
 	r.Assume("successor states are produced by replaying the BFS-shortest operation path on a fresh memory store; merged model states are licensed by checking every transition out of every state")
 	levelPairs(r)
+	levelBatches(r)
 	level2(r, r.Pick(12, 30))
 	level1(r, r.Pick(11, 15))
 	r.Set("rule", "level 0: every unordered pair of different values of the near-collision universes in each triple position, through add / add / remove on a fresh graph; BFS over StoreModel states; level 1: all subsets of the triple universe x all add/remove batches of size 0-2; level 2: store with 2 names x 3 triples, and 3 names x 1 triple with GraphNames calls inside the history (state keeps the content of the last listing), handle slots incl. stale handles, to fixpoint or the depth bound")
